@@ -178,7 +178,7 @@ CORPUS_DEFS = [
 def variants(d, rng):
     nproc = len(d["events"]) + len(d["odes"])
     out = []
-    for route in ("event", "legacy", "mixed", "incremental", "mixed"):
+    for route in ("event", "legacy", "mixed", "incremental", "mixed", "split"):
         order = [int(x) for x in rng.permutation(nproc)]
         dd = dict(d, decl=["list", "comma", "space"][int(rng.integers(0, 3))])
         out.append((route, order, dd))
@@ -222,6 +222,27 @@ def run(ck):
         if not built:
             continue
         ref = built[0]
+        if ref[0] == "event" and k % 3 == 1:
+            # incremental building WITH looking in between: the reference model has been evaluated above; a process is now
+            # added to it through add_event and the result compared with the explicit-ODE entry of the grown definition
+            import pg
+            d2 = json.loads(json.dumps(d))
+            p0, s0 = d["params"][k % len(d["params"])], d["states"][0]
+            d2["events"].append(dict(rate="%s*%s" % (p0, s0), kind="linear", trans=[dict(ty="D", o=0, d=None, mag="2")]))
+            dist["grown-after-evaluation"] += 1
+            try:
+                tr = pg.Transition(origin=s0, transition_type="D", magnitude="2")
+                if k % 2:
+                    ref[2].add_event(pg.Event(rate="%s*%s" % (p0, s0), transition_list=[tr]))
+                else:
+                    ref[2].event_list = [pg.Event(rate="%s*%s" % (p0, s0), transition_list=[tr])]
+                bad = explicit_route_check(d2, dict(d2, decl="list"), pt, ref[2])
+            except Exception as e:          # noqa: BLE001
+                bad = "%s: %s" % (type(e).__name__, str(e)[:200])
+            if bad:
+                ck.violation("grown-model-differs", "model evaluated, then a process added with add_event / event_list: " + bad,
+                             dict(definition=d, route="grown", seed=k))
+            continue
         if ref[0] == "event" and k % 2 == 0:
             dd = dict(d, decl=["list", "comma", "space"][k % 3])
             dist["explicit"] += 1
@@ -234,8 +255,8 @@ def run(ck):
         for b in built[1:]:
             route, order, m, rb, pv, inp = b
             exact = pv["exact"] and ref[4]["exact"]
-            # same multiset of processes after normalisation
-            if canon(rb) != canon(ref[3]) or canon(rb) != canon(d):
+            # same multiset of processes after normalisation (the split route holds k events for one k-transition process)
+            if route != "split" and (canon(rb) != canon(ref[3]) or canon(rb) != canon(d)):
                 ck.violation("normalised-process-set-differs/" + route,
                              "route %s holds processes %s, the definition is %s" % (route, sorted(canon(rb).items())[:4], sorted(canon(d).items())[:4]), inp)
                 continue
@@ -251,7 +272,7 @@ def run(ck):
                 ra = sorted(np.asarray(m.eventRateVector(x, t), float).ravel().tolist())
                 rb_ = sorted(np.asarray(ref[2].eventRateVector(x, t), float).ravel().tolist())
                 if not (np.allclose(a, bb, rtol=1e-12, atol=1e-12) and np.allclose(ja, jb, rtol=1e-11, atol=1e-11)
-                        and np.allclose(ra, rb_, rtol=1e-12, atol=1e-12)):
+                        and (route == "split" or np.allclose(ra, rb_, rtol=1e-12, atol=1e-12))):
                     ck.violation("numeric-differs-between-routes/" + route, "ode/jacobian/eventRateVector differ at %s" % x.tolist(), inp)
             except Exception as e:
                 ck.violation("eval-error/" + route, "%s: %s" % (type(e).__name__, str(e)[:200]), inp)
@@ -294,6 +315,20 @@ def replay(ck, data):
     dd = dict(d, decl=inp.get("decl", "list"))
     if inp["route"] == "explicit":
         return explicit_route_check(d, dd, pt, m0)
+    if inp["route"] == "grown":
+        import pg
+        k = inp.get("seed", 0)
+        d2 = json.loads(json.dumps(d))
+        p0, s0 = d["params"][k % len(d["params"])], d["states"][0]
+        d2["events"].append(dict(rate="%s*%s" % (p0, s0), kind="linear", trans=[dict(ty="D", o=0, d=None, mag="2")]))
+        m0.parameters = {p: float(pt[p]) for p in d["params"]}
+        m0.get_ode_eqn(); m0.ode(np.array([float(pt[s]) for s in d["states"]]), float(pt["t"]))
+        tr = pg.Transition(origin=s0, transition_type="D", magnitude="2")
+        if k % 2:
+            m0.add_event(pg.Event(rate="%s*%s" % (p0, s0), transition_list=[tr]))
+        else:
+            m0.event_list = [pg.Event(rate="%s*%s" % (p0, s0), transition_list=[tr])]
+        return explicit_route_check(d2, dict(d2, decl="list"), pt, m0)
     try:
         m1, _ = mg.build(dd, route=inp["route"], rng=np.random.default_rng(inp.get("seed", 0)), order=inp.get("order"),
                          reuse=bool(inp.get("reuse")))
